@@ -624,6 +624,57 @@ fn stream_case(tier: Tier, fmt: Fmt, ch: u16, rate: u32, ctx: &mut Ctx) {
 	}
 }
 
+/// the whole of a file longer than two decoder rings, streamed in pieces: every frame equals the loaded file's
+fn long_stream_case(fmt: Fmt, ch: u16, ctx: &mut Ctx) {
+	pacer::set_mode(pacer::Mode::Pacer);
+	let (n, rate, piece) = (40000usize, 8000u32, 1000usize);
+	let spec = Spec { fmt, ch, n, rate, layout: Layout::Plain };
+	let (file, _, vals) = encode(&spec);
+	let bytes: Arc<[u8]> = file.into();
+	let reference = to_frames(&vals, ch as usize);
+	let mut segs = vec![];
+	let mut left = n;
+	while left > 0 {
+		let k = piece.min(left);
+		left -= k;
+		let ends = left == 0;
+		segs.push(Seg { seek: None, steps: k + ends as usize, render: k + 2 * ends as usize });
+	}
+	ctx.evals += 1;
+	ctx.count("runs: long streaming scenarios", 1);
+	let detail = format!("{}: streamed from the start to the end in pieces of {} frames at playback rate 1, dt=1/{}", spec.desc(), piece, rate);
+	let obs = match catch(|| stream_play(&bytes, rate, 0, &segs)) {
+		Ok(o) => o,
+		Err(p) => return ctx.fail(format!("panic: {} :: streaming a valid long wav file", p), detail),
+	};
+	if obs.hung {
+		return ctx.fail("hang: the streaming decoder thread never finishes a decode-loop iteration :: a valid long wav file", detail);
+	}
+	if let Some(e) = obs.open_err.as_ref().or(obs.start_err.as_ref()) {
+		return ctx.fail(format!("stream: valid long wav file refused: {}", e), detail);
+	}
+	if !obs.errors.is_empty() {
+		return ctx.fail(format!("stream: decode error reported for a valid file: {} :: long wav", obs.errors[0]), detail);
+	}
+	let all: Vec<Frame> = obs.out.concat();
+	let mut bad = vec![];
+	for (i, f) in all.iter().enumerate() {
+		let want = if i < n { reference[i] } else { Frame::ZERO };
+		if !same_frame(*f, want) {
+			bad.push((i, *f, want));
+		}
+	}
+	if let Some((i, f, w)) = bad.first() {
+		ctx.fail(
+			"stream: frames differ from the loaded file :: wav streamed beyond the length of the decoder ring",
+			format!("{} frame(s) differ, first: file frame {} got ({},{}) want ({},{}); differing frames {:?}; {}", bad.len(), i, f.left, f.right, w.left, w.right, bad.iter().take(8).map(|b| b.0).collect::<Vec<_>>(), detail),
+		);
+	} else {
+		ctx.nontrivial_extra += 1;
+	}
+	ctx.outcome(frames_hash(&all));
+}
+
 // ---------------------------------------------------------------------------------------------
 // C: shipped assets (differential)
 
@@ -859,6 +910,8 @@ enum Case {
 	Asset(&'static str),
 	Trunc(usize, usize),
 	Corrupt(usize, usize),
+	/// a generated wav longer than two decoder rings, streamed from start to end in pieces
+	LongStream(Fmt, u16),
 }
 
 fn cases(tier: Tier) -> Vec<Case> {
@@ -876,6 +929,8 @@ fn cases(tier: Tier) -> Vec<Case> {
 		}
 	}
 	v.extend(ASSETS.iter().map(|a| Case::Asset(a)));
+	v.push(Case::LongStream(Fmt::S16, 2));
+	v.push(Case::LongStream(Fmt::F32, 1));
 	for (i, s) in bases(tier).into_iter().enumerate() {
 		let b = base(s);
 		v.extend((0..=b.bytes.len() / TRUNC_PART).map(|part| Case::Trunc(i, part)));
@@ -902,6 +957,7 @@ impl Check for C18 {
 			Case::Asset(a) => format!("shipped asset {}: streaming == static on a position lattice (start x <=2 seeks)", a),
 			Case::Trunc(i, part) => format!("every truncation length in {}.. (at most {}) of base file {} [{}]", part * TRUNC_PART, TRUNC_PART, i, bases(tier)[*i].desc()),
 			Case::Corrupt(i, off) => format!("byte {} of base file {} [{}] set to each of the 255 other values", off, i, bases(tier)[*i].desc()),
+			Case::LongStream(f, ch) => format!("generated wav {:?} channels={} of 40000 frames at 8000 Hz streamed from start to end in pieces of 1000 frames (crosses the 16384-frame decoder ring twice) == loaded", f, ch),
 		}
 	}
 	fn sig_hint(&self, tier: Tier, idx: u64) -> String {
@@ -911,6 +967,7 @@ impl Check for C18 {
 			Case::Asset(a) => format!("asset {}", a),
 			Case::Trunc(i, _) => format!("truncations of base file {} [{}]", i, bases(tier)[*i].desc()),
 			Case::Corrupt(i, off) => format!("corruption of byte {} of base file {} [{}]", off, i, bases(tier)[*i].desc()),
+			Case::LongStream(f, ch) => format!("long stream {:?} channels={}", f, ch),
 		}
 	}
 	fn run_case(&self, tier: Tier, idx: u64, ctx: &mut Ctx) {
@@ -920,6 +977,7 @@ impl Check for C18 {
 			Case::Asset(a) => asset_case(tier, a, ctx),
 			Case::Trunc(i, part) => truncation_case(&base(bases(tier)[*i]), *part, ctx),
 			Case::Corrupt(i, off) => corruption_case(&base(bases(tier)[*i]), *off, ctx),
+			Case::LongStream(f, ch) => long_stream_case(*f, *ch, ctx),
 		});
 		if let Err(p) = r {
 			ctx.fail(format!("panic: {} :: outside the guarded kira calls (harness)", p), self.describe(tier, idx));
